@@ -432,7 +432,7 @@ def step (c : Cfg) (s : State) : Label → Option State
     else none
   -- ---------------------------------------------------------------- call_rcu_data_free(h)
   | .fCall t h =>
-    if userCtx c s t = true ∧ s.tpc t = .idle ∧ h < s.nextH ∧ FreeObl c s h then
+    if userCtx c s t = true ∧ s.tpc t = .idle ∧ s.nest t = 0 ∧ h < s.nextH ∧ FreeObl c s h then
       if s.dflt = some h then some { s with clock := s.clock + 1 }      -- silently refused
       else some { s with tpc := upd s.tpc t (.fLdFlags h), retiring := upd s.retiring h true, clock := s.clock + 1 }
     else none
